@@ -331,7 +331,7 @@ impl Pool3 {
                     const P: [[usize; 3]; 6] = [[0, 1, 2], [0, 2, 1], [1, 0, 2], [1, 2, 0], [2, 0, 1], [2, 1, 0]];
                     let o = P[(self.perm_next.get() % 6) as usize];
                     let mut v = [self.asset(o[0], amounts[o[0]]), self.asset(o[1], amounts[o[1]]), self.asset(o[2], amounts[o[2]])];
-                    if self.perm_next.get() >= 6 {
+                    if self.perm_next.get() >= 6 && self.perm_next.get() < 12 {
                         // hostile: every native pool asset is declared as a cw20 token whose "address" is the denom
                         for a in v.iter_mut() {
                             if let AssetInfo::NativeToken { denom } = a.info.clone() {
@@ -344,7 +344,13 @@ impl Pool3 {
                 slippage_tolerance: slippage.map(|s| Decimal::from_str(s).unwrap()),
                 receiver: None,
             },
-            if self.perm_next.get() >= 6 { vec![] } else { self.funds_for(&[(0, amounts[0]), (1, amounts[1]), (2, amounts[2])]) },
+            match self.perm_next.get() {
+                6..=11 => vec![],
+                // hostile 12..17: every native coin attached with half the declared amount; 18..23: with more
+                12..=17 => self.funds_for(&[(0, amounts[0] / 2), (1, amounts[1] / 2), (2, amounts[2] / 2)]),
+                18..=23 => self.funds_for(&[(0, amounts[0].saturating_add(1 + amounts[0] / 3)), (1, amounts[1].saturating_add(1 + amounts[1] / 3)), (2, amounts[2].saturating_add(1 + amounts[2] / 3))]),
+                _ => self.funds_for(&[(0, amounts[0]), (1, amounts[1]), (2, amounts[2])]),
+            },
         ));
         msgs
     }
@@ -582,7 +588,7 @@ impl Scenario for Pool3 {
                     _ => [d0, rng.edge_amount(bal[1] / 2).max(1), rng.edge_amount(bal[2] / 2).max(1)],
                 };
                 let slippage = if rng.chance(1, 4) { Some(atomics_to_dec(*rng.pick(&[0u128, E18 / 100, E18 / 2, E18, E18 + 1]))) } else { None };
-                Op::Provide { amounts, slippage, perm: if rng.chance(1, 2) { 0 } else if rng.chance(1, 8) { 6 + rng.below(6) as u8 } else { rng.below(6) as u8 } }
+                Op::Provide { amounts, slippage, perm: if rng.chance(1, 2) { 0 } else if rng.chance(1, 8) { 6 + rng.below(18) as u8 } else { rng.below(6) as u8 } }
             }
             1 if rng.chance(1, 8) => Op::WithdrawDirect { coin: rng.idx(4), amount: *rng.pick(&[1u128, 1000, 3000, 3001, 999_999]) },
             1 => Op::Withdraw { lp: if lp == 0 { rng.range128(0, 5) } else { match rng.below(4) { 0 => lp, 1 => 1, _ => rng.edge_amount(lp) } } },
@@ -966,7 +972,10 @@ fn do_provide(s: &mut Pool3, ctx: &mut Ctx, actor: usize, amounts: [u128; 3], sl
         }
         let minted = after.share.saturating_sub(before.share);
         for i in 0..3 {
-            if after.bal[i] != before.bal[i].saturating_add(amounts[i]) {
+            // (a deposit sent with more than it declares, perm 18..23: what the pool keeps beyond the credited
+            // amount is the sender's loss, not the pool's; only "received less than credited" is reported)
+            let surplus_mode = s.perm_next.get() >= 18;
+            if (!surplus_mode && after.bal[i] != before.bal[i].saturating_add(amounts[i])) || after.bal[i] < before.bal[i].saturating_add(amounts[i]) {
                 ctx.fail("C04", "deposit_funds_received", opname, None, format!("asset {i}: pool {} -> {} for deposit {}", before.bal[i], after.bal[i], amounts[i]));
             }
         }
